@@ -420,6 +420,7 @@ fn free_main(o: &Opts) -> i32 {
     let mut out = std::io::BufWriter::new(std::fs::File::create(o.req("out")).expect("out"));
     let path = format!("{}/free_{}_{}.feox", o.get("dir").unwrap_or("/dev/shm"), std::process::id(), seed);
     crate::util::watchdog::start(o.num("watchdog", 60));
+    obs::set_hang_lockout(o.get("lockout"));
     let keynames: Vec<String> = (1..=nkeys).map(|i| format!("key{i}")).collect();
     let big = pers && o.num("bigvals", 1u32) == 1;
     let pool: Vec<Value> = vec![
@@ -554,6 +555,7 @@ fn storm_main(o: &Opts) -> i32 {
     obs::set_cpus(o.num("cpus", 2));
     let path = format!("{}/storm_{}_{}.feox", o.get("dir").unwrap_or("/dev/shm"), std::process::id(), seed);
     crate::util::watchdog::start(o.num("watchdog", 30));
+    obs::set_hang_lockout(o.get("lockout"));
     let cfg = json!({"pers": true, "ttl": true, "cache": o.num("cache", 0u32) == 1, "lim": -1, "blocks": o.num("blocks", 200u64)});
     feoxdb::verif::force_sync(true);
     let store = Arc::new(build_store(&cfg, &path));
